@@ -682,9 +682,6 @@ def build_blocks(
             all_blocks.append(block)
             block.add_ent(ent1)
             block.add_ent(ent2)
-    if not overflow_block.ents:
-        all_blocks.remove(overflow_block)
-
     # Now, add every remaining ent to overflow blocks.
     print(f'{len(todo)} ents in overflow blocks.')
     for ent in list(todo):
@@ -692,6 +689,9 @@ def build_blocks(
         if overflow_block.bytesize >= MAX_BLOCK_SIZE:
             overflow_block = BuiltBlock()
             all_blocks.append(overflow_block)
+    # Only now may unused overflow blocks be dropped - the first one is still empty while
+    # the overlapping pairs are grouped, and the last one may have just been started.
+    all_blocks = [block for block in all_blocks if block.ents]
 
     del ent_to_block, todo  # Not useful any more.
     all_blocks.sort(key=lambda block: len(block.ents))
